@@ -56,6 +56,9 @@ class FakeSocket(object):
         if not self.inbox:
             raise WouldBlockForever('recv(%d) with nothing to read' % n)
         x = self.inbox[0]
+        if callable(x):
+            # bytes decided only now, when the provider reads them (they may depend on what it has processed so far)
+            x = self.inbox[0] = x()
         if x == 'EOF':
             return b''
         if x == 'ERR':
